@@ -56,6 +56,9 @@ def run(tier):
         txt = render(tr["t"])
         cases.append({"id": "g%d" % n, "role": "guard", "text": txt, "n": n})
         cases.append({"id": "v%d" % n, "role": "inv", "text": txt, "n": n})
+        if len(json.dumps(tr["t"])) < 60 or n % 9 == 0:          # the invariant of an urgent / a committed location is an invariant like any other
+            cases.append({"id": "u%d" % n, "role": "inv", "flag": "urgent", "text": txt, "n": n})
+            cases.append({"id": "w%d" % n, "role": "inv", "flag": "committed", "text": txt, "n": n})
     jobs, index = batch.make_batches(cases, DECL, per=150)
     res = vf.run_jobs(jobs, c.run_dir, variant="plain" if not quick else "plain")
     v, stray, crashed = batch.verdicts(res, index, cases)
